@@ -933,5 +933,49 @@ pub const fn to_nz(self) -> (ret__: ConstCtOption<NonZero<Self>>)
     }
 }
 //@@ end
+//@@ fn src/uint.rs | impl<const LIMBS: usize> Uint<LIMBS> | from_words | body | props C16 C11
+impl<const LIMBS: usize> Uint<LIMBS> {
+pub const fn from_words(arr: [Word; LIMBS]) -> (ret__: Self)
+//@+
+    ensures forall|k: int| 0 <= k < LIMBS ==> ret__.limbs@[k].0 == arr@[k]
+//@-
+{
+        let mut limbs = [Limb::ZERO; LIMBS];
+        let mut i = 0;
+        while i < LIMBS
+//@+
+    invariant i <= LIMBS, forall|k: int| 0 <= k < i ==> limbs@[k].0 == arr@[k],
+    decreases LIMBS - i,
+//@-
+{
+            limbs[i] = Limb(arr[i]);
+            i += 1;
+        }
+        Self { limbs }
+    }
+}
+//@@ end
+//@@ fn src/uint.rs | impl<const LIMBS: usize> Uint<LIMBS> | to_words | body | props C16 C11
+impl<const LIMBS: usize> Uint<LIMBS> {
+pub const fn to_words(self) -> (ret__: [Word; LIMBS])
+//@+
+    ensures forall|k: int| 0 <= k < LIMBS ==> ret__@[k] == self.limbs@[k].0
+//@-
+{
+        let mut arr = [0; LIMBS];
+        let mut i = 0;
+        while i < LIMBS
+//@+
+    invariant i <= LIMBS, forall|k: int| 0 <= k < i ==> arr@[k] == self.limbs@[k].0,
+    decreases LIMBS - i,
+//@-
+{
+            arr[i] = self.limbs[i].0;
+            i += 1;
+        }
+        arr
+    }
+}
+//@@ end
 
 } // verus!
